@@ -13,35 +13,31 @@ mod imp {
 use tevec::prelude::*;
 
 use crate::proto::{toks, Req};
-use crate::{with_out, with_xs_all, with_xs_num};
+use crate::{roll1_dispatch, with_out, with_xs_all, with_xs_num};
 
 pub fn run(r: &Req) -> Option<String> {
     let w = r.usize("w");
     let mp = r.opt_usize("mp");
     macro_rules! valid {
-        ($($name:ident),*) => {
+        ($($name:ident => $to:ident),*) => {
             match r.f.as_str() {
-                $( stringify!($name) => return Some(with_xs_all!(r, "xs", v => with_out!(r, O => {
-                    let out: Vec<O> = v.$name(w, mp);
-                    toks(&out)
-                }))), )*
+                $( stringify!($name) => return Some(roll1_dispatch!(r, with_xs_all, with_xs_f, |view, OC, U, out| view.$to::<OC, U>(w, mp, out))), )*
                 _ => {},
             }
         };
     }
     macro_rules! plain {
-        ($($name:ident),*) => {
+        ($($name:ident => $to:ident),*) => {
             match r.f.as_str() {
-                $( stringify!($name) => return Some(with_xs_num!(r, "xs", v => with_out!(r, O => {
-                    let out: Vec<O> = v.$name(w, mp);
-                    toks(&out)
-                }))), )*
+                $( stringify!($name) => return Some(roll1_dispatch!(r, with_xs_num, with_xs_f64, |view, OC, U, out| view.$to::<OC, U>(w, mp, out))), )*
                 _ => {},
             }
         };
     }
-    valid!(ts_vsum, ts_vmean, ts_vewm, ts_vwma, ts_vstd, ts_vvar, ts_vskew, ts_vkurt);
-    plain!(ts_sum, ts_mean, ts_ewm, ts_wma, ts_std, ts_var, ts_skew, ts_kurt);
+    valid!(ts_vsum => ts_vsum_to, ts_vmean => ts_vmean_to, ts_vewm => ts_vewm_to, ts_vwma => ts_vwma_to,
+           ts_vstd => ts_vstd_to, ts_vvar => ts_vvar_to, ts_vskew => ts_vskew_to, ts_vkurt => ts_vkurt_to);
+    plain!(ts_sum => ts_sum_to, ts_mean => ts_mean_to, ts_ewm => ts_ewm_to, ts_wma => ts_wma_to,
+           ts_std => ts_std_to, ts_var => ts_var_to, ts_skew => ts_skew_to, ts_kurt => ts_kurt_to);
     match r.f.as_str() {
         "ts_vfdiff" => {
             let d = r.f64("d");
